@@ -1,7 +1,7 @@
 #!/bin/bash
 # every kept seeded change (four rounds) against the quick check of the property it was written against
 cd "$(dirname "$0")/.."
-for k in 4 3 2 1; do
+for k in 5 4 3 2 1; do
   for p in C01 C02 C03 C04 C05 C06 C07 C08 C09 C10 C11 C12 C13 C14 C15 C16 C17 C18 C19; do
     s=$p-m$k
     [ -d seeded/$s ] || continue
